@@ -12,11 +12,13 @@ use program_structure::ir::*;
 
 pub struct UnconstrainedLessThanWarning {
     value: Expression,
+    /// The location of the (first) `LessThan` input assigned from `value`.
+    input_meta: Meta,
     bit_sizes: Vec<(Meta, Expression)>,
 }
 impl UnconstrainedLessThanWarning {
     fn primary_meta(&self) -> &Meta {
-        self.value.meta()
+        &self.input_meta
     }
 
     pub fn into_report(self) -> Report {
@@ -264,6 +266,10 @@ fn update_inputs(
 fn build_report(value: &Expression, data: &ConstraintData) -> Report {
     UnconstrainedLessThanWarning {
         value: value.clone(),
+        // The report is about the input to `LessThan`, which is not necessarily
+        // the first occurrence of the value (it may be preceded by the input
+        // to `Num2Bits`).
+        input_meta: data.less_than.first().unwrap_or_else(|| value.meta()).clone(),
         bit_sizes: data.num_2_bits.iter().cloned().zip(data.bit_sizes.iter().cloned()).collect(),
     }
     .into_report()
